@@ -62,6 +62,15 @@ TAG_MAP.update(
 
 TYPE_MAP = decoder.TYPE_MAP.copy()
 
+# The copy already maps these type IDs to the BER payload decoders, make
+# decoding guided by `asn1Spec` as strict as the tag-guided one
+TYPE_MAP.update(
+    {univ.Boolean.typeId: TAG_MAP[univ.Boolean.tagSet],
+     univ.BitString.typeId: TAG_MAP[univ.BitString.tagSet],
+     univ.OctetString.typeId: TAG_MAP[univ.OctetString.tagSet],
+     univ.Real.typeId: TAG_MAP[univ.Real.tagSet]}
+)
+
 # Put in non-ambiguous types for faster codec lookup
 for typeDecoder in TAG_MAP.values():
     if typeDecoder.protoComponent is not None:
